@@ -1,7 +1,7 @@
 SPECIFICATION Spec
 CONSTANTS
   MaxStages = 3
-  Stage3Mod = 8
+  Stage3Mod = 7
   Seed = 1
   DecodeLimits = {4096, 65536}
   FlOnlyLimits = {1048576}
